@@ -1,8 +1,17 @@
 (* C22 — Server push rules are enforced on both ends. *)
-From H2 Require Import Proofs.C22Full.
+From H2 Require Import Proofs.C22Full Proofs.RoleInv.
 From H2 Require Import Base.Prelude Base.PyDict Model.FsmTypes Gen.Consts Gen.Tables Gen.Guards Model.Types Model.Windows Model.WmHist Model.SettingsV Model.Settings Model.StreamFSM Model.Headers Model.Stream Model.ConnState Model.Connection Proofs.FsmReach Proofs.C0708Proofs Proofs.PushProofs Proofs.AltSvcUpgradeProofs.
 
 (* ---------- C22: local push ---------- *)
+(* "... succeeds exactly when a SERVER pushes": after ANY history of API calls and received frames (no bound on length), a
+   push_stream call that succeeds was made on a server-side connection.  Rests on the role invariant of Proofs/RoleInv.v:
+   the connection state machine agrees with the configured role after every history (this is false of the tree before
+   fixes 12650a7, 09dbf89, 4e7b916 and 1fed9f8, each of which let one side drive the state machine into the other role). *)
+Theorem C22_only_servers_push :
+  forall cfg os sid promised hs L c',
+    api_push_stream sid promised hs L (run (conn_new cfg) os) = (c', Ok tt) -> cfg_client cfg = false.
+Proof. exact only_servers_push. Qed.
+
 (* The "only when" half of "push_stream succeeds exactly when ...", for EVERY connection state and every argument: a
    push_stream call that succeeds was made on a connection in state SERVER_OPEN whose peer allows push, on an odd
    (client-initiated) parent that is in the stream table, open or half-closed (remote) and not playing the client role,
@@ -60,3 +69,4 @@ Print Assumptions C22_push_promise_is_connection_error_when_push_disabled.
 Print Assumptions C22_push_promise_on_pushed_stream_refused.
 Print Assumptions C22_pushed_stream_event_shape.
 Print Assumptions C22_push_stream_only_when_the_rules_hold.
+Print Assumptions C22_only_servers_push.
